@@ -746,6 +746,27 @@ func genC13(g *Rng, tier string, emit func(Op)) {
 					"key": kp.id, "secret": hx(secret), "m": hx(mm), "sign": hxi(sign), "bound": hx(new(big.Int).Sub(mm, bi(20*sign))), "shift": hxi(70), "table": table})
 			}
 		}
+		// a range statement on an attribute the credential does not have: refused when the builder is
+		// made (recorded run; before 0cb86be the proof construction crashed)
+		{
+			res := func() (r string) {
+				defer func() {
+					if e := recover(); e != nil {
+						r = fmt.Sprintf("panic: %v", e)
+					}
+				}()
+				cred := issueCred(kp, secret, []*big.Int{g.bits(60), g.bits(60)})
+				st, _ := rangeproof.NewStatement(rangeproof.GreaterOrEqual, bi(0))
+				for _, idx := range []int{3, 4, -1} {
+					p, err := cred.CreateDisclosureProof([]int{1}, map[int][]*rangeproof.Statement{idx: {st}}, false, bi(1), bi(2))
+					if err == nil || p != nil {
+						return fmt.Sprintf("built a proof with a range statement at index %d", idx)
+					}
+				}
+				return "refused"
+			}()
+			emit(Op{"op": "recorded", "class": "range-statement-at-nonexistent-index", "label": "refused", "nomodel": true, "fkey": "C12/prover-nonexistent-index", "result": res})
+		}
 		// tables of other sizes (the documented range depends on the table alone): the largest
 		// differences each supports, where the roots use all the bits the table declares
 		for _, tl := range []int{30, 100, 127, 128, 2000, 5000} {
